@@ -19,5 +19,5 @@ CONF = {
                     'option values shorter than 65536 bytes, block lengths below 2^32',
                     'bufio.Reader/Writer, io.Reader semantics by their specification; gzip not modelled'],
     'trusted_base': ['model: coq/Model/NgModel.v is a hand transcription of pcapgo/ngwrite.go, ngwrite_dsb.go, ngread.go, ngread_nrb.go, ngread_dsb.go, pcapng.go (line ranges in its header)'],
-    'explanation': 'Proved at file level for scripts of NewNgWriterInterface/AddInterface/WritePacketWithOptions with all link types wanted: C14_ng_roundtrip_file_partial (whole file read back as exactly its packets, then io.EOF) and C14_ng_prefix_file_partial + C14_ng_prefix_header_partial (every cut position: exactly the wholly contained packets, then io.EOF at a block boundary, io.ErrUnexpectedEOF elsewhere; also for the run with the own fuel of the cut input, C14_ng_prefix_file_own_fuel_partial, via C14_ng_fuel_independence). Scripts may contain WriteDecryptionSecretsBlock. Not covered by the theorems: WriteInterfaceStats blocks in the script, WantMixedLinkType=false, if_tsoffset != 0 (refuted). In the functional model the result of a copying read is a value (list Z, cinfo, popts) that no later reader step can alter, by construction; the harness checks the same of the implementation by keeping what the copying calls returned. C14_ng_roundtrip / C14_ng_prefix are proved about the model writer and reader; the correspondence run ties both to the code.',
+    'explanation': 'C14_ng_roundtrip is proved at full strength for all link types wanted (every writer call incl. WriteInterfaceStats / WriteDecryptionSecretsBlock, call-by-call hypotheses incl. caplen <= snap length, accepted flags); the statement as first written, without the snap length hypothesis, is refuted. WantMixedLinkType=false: C14_ng_roundtrip_file_unmixed_partial (exactly exp_unmixed) and C14_ng_prefix_file_unmixed_partial (every cut behind the first interface block). Proved at file level for scripts of NewNgWriterInterface/AddInterface/WritePacketWithOptions with all link types wanted: C14_ng_roundtrip_file_partial (whole file read back as exactly its packets, then io.EOF) and C14_ng_prefix_file_partial + C14_ng_prefix_header_partial (every cut position: exactly the wholly contained packets, then io.EOF at a block boundary, io.ErrUnexpectedEOF elsewhere; also for the run with the own fuel of the cut input, C14_ng_prefix_file_own_fuel_partial, via C14_ng_fuel_independence). Scripts may contain WriteDecryptionSecretsBlock. Not covered by the theorems: WriteInterfaceStats blocks in the script, WantMixedLinkType=false, if_tsoffset != 0 (refuted). In the functional model the result of a copying read is a value (list Z, cinfo, popts) that no later reader step can alter, by construction; the harness checks the same of the implementation by keeping what the copying calls returned. C14_ng_roundtrip / C14_ng_prefix are proved about the model writer and reader; the correspondence run ties both to the code.',
 }
